@@ -155,7 +155,14 @@ var cur atomic.Pointer[Sim]
 
 func Active() *Sim { return cur.Load() }
 
+var epoch atomic.Uint64
+
+// Epoch numbers the simulated runs of this process (0: none yet); process-wide caches of the instrumented code
+// (simsync.Pool) are dropped when it changes.
+func Epoch() uint64 { return epoch.Load() }
+
 func New(cfg Config) *Sim {
+	epoch.Add(1)
 	if cfg.MaxG == 0 {
 		cfg.MaxG = 1024
 	}
